@@ -8,7 +8,7 @@ import session_common as sc
 
 def sig_of(row, why):
     cd, ev = row["cd"], row["ev"]
-    return "C19/%s/%s/%s/%s" % (why, sc.spec_label(cd["spec"]), sc.srv_label(cd["srv"]), sc.first_failure(ev))
+    return "C19/%s/%s/%s/%s" % (why, sc.spec_label(cd["spec"]), sc.srv_label(cd["srv"]), sc.failure_for(why, ev))
 
 
 def run(ctx):
@@ -64,13 +64,16 @@ def run(ctx):
     lap("replay + validation done")
     ctx.traces += n
     missing = [k for k, v in acc.items() if v == 0]
-    if missing:
+    if missing and not rej:     # when TLC rejected connections, an empty class is part of that verdict
         raise vlib.Machinery("C19 vacuous: nothing accepted for %s (accepted: %r)" % (missing, acc))
     # ---- binding canaries
     canaries = []
     def mutate(kind, f, what):
         if kind not in keep:
-            raise vlib.Machinery("C19: no accepted connection to build canary '%s' from" % what)
+            if not rej:
+                raise vlib.Machinery("C19: no accepted connection to build canary '%s' from" % what)
+            ctx.note("canary '%s' skipped: every connection it could be built from was rejected (see findings)" % what)
+            return
         s, es, k = keep[kind]
         rs = copy.deepcopy(sc.rows_of(s, es))
         for r in rs:
@@ -100,7 +103,7 @@ def run(ctx):
     mutate("ok", lambda ev: ev.update(s_ok=False), "server abort injected")
     mutate("ems", drop_ems, "extended_master_secret removed from a hello offering an EMS session")
     crow = [r for _, rs, _ in canaries for r in rs]
-    crej, _, _ = sc.validate(ctx, crow, "c19canary", nshards=1)
+    crej, _, _ = sc.validate(ctx, crow, "c19canary", nshards=1) if crow else ([], [], 0)
     caught = {(r["sid"], r["k"]) for r, _ in crej}
     for what, rs, k in canaries:
         if (rs[0]["sid"], k) not in caught:
